@@ -83,8 +83,10 @@ pub fn run_case(case: &Case, timeout_s: u64) -> CaseResult {
 /// is attributed to that finding (only saved replay inputs carry such markers).
 pub fn outcome_for_case(case: &Case, property: &str, also: &[&str], res: CaseResult, known: &[KnownFinding], nontrivial: &dyn Fn(&Verdict) -> (bool, Vec<&'static str>)) -> Outcome {
     let is_known = |viol_prop: &str, sig: &str| known.iter().any(|k| k.covers(property, viol_prop, sig, &case.plan));
-    let race_marker = case.opts.iter().find(|(k, v)| k == "__allow" && v == "markcompact-nonmoving-double-release-race").map(|(_, v)| v.clone());
-    if let Some(sig) = &race_marker {
+    // saved inputs of schedule-dependent known findings carry `__allow:<signature>`: however the finding
+    // manifests in a given run (oracle verdict or a crash inside mmtk), it is attributed to that finding
+    let markers: Vec<String> = case.opts.iter().filter(|(k, _)| k == "__allow").map(|(_, v)| v.clone()).collect();
+    for sig in &markers {
         let crashed = match &res {
             CaseResult::Crash { .. } => true,
             CaseResult::Verdict(v) => v.violations.iter().any(|x| x.property == "CRASH"),
